@@ -399,6 +399,14 @@ func (w *vkWorld) runOnce(cs vkCase) vkResult {
 	}
 	res.F1 = pl.Failures()
 	vkJudgeStore(&res, "after the client query ("+a.outcome()+")", res.F1, zone, qname, allFailed, local)
+	if cs.Mode == "enrich" {
+		// every server answers everything the client's resolution needs; only the detached, optional AAAA
+		// lookups for the name server hosts fail: nothing at all may have become shared failure state
+		for _, e := range res.F1 {
+			res.Viol = append(res.Viol, vkViol{"enrichment-failure-recorded", fmt.Sprintf("the failing optional IPv6 enrichment of the delegation left %s in the shared failure store (client reply %s); store %s", e, a.outcome(), vkFailStr(res.F1))})
+			break
+		}
+	}
 
 	// follow-up: another name of the same zone, asked of the same pipeline instance (= the same shared
 	// state) by a client that is not cancelled and has its own fresh budget
